@@ -91,7 +91,7 @@ def model_to_dict(m, limit=80):
 
 def verify_function(program, registry, spec, opts=None) -> FunctionResult:
     opts = opts or {}
-    res = FunctionResult(spec.target)
+    res = FunctionResult(spec.label)
     fi = program.find_func(spec.target)
     t0 = time.time()
     q0, s0 = STATS.queries, STATS.solver_s
@@ -147,7 +147,7 @@ def verify_function(program, registry, spec, opts=None) -> FunctionResult:
 def run_path(I: Interp, ctx: PathCtx, spec, fi, res: FunctionResult):
     c = ContractCtx("verify", I, fi, None)
     spec.fn(c)
-    base = fi.dotted
+    base = spec.label
     from .replay_driver import concretize_call
 
     ctx.concretizer = lambda m: concretize_call(I, c, m)
